@@ -1637,6 +1637,16 @@ func (pkg *Package) AutofixDistinfo(oldSha1, newSha1 string) {
 	distinfoFilename := pkg.File(pkg.DistinfoFile)
 	if lines := Load(distinfoFilename, NotEmpty|LogErrors); lines != nil {
 		for _, line := range lines.Lines {
+			// Another patch may have the same hash as the patch that has
+			// just been fixed. Its entry must stay as it is, therefore skip
+			// the entries of those patches that don't have the new hash.
+			if m, patchName := match1(line.Text, `^SHA1 \((\w[^)]*)\) = `); m {
+				patchFile := pkg.File(pkg.Patchdir.JoinNoClean(NewRelPathString(patchName)))
+				if other := Load(patchFile, 0); other != nil && computePatchSha1Hex(other) != newSha1 {
+					continue
+				}
+			}
+
 			fix := line.Autofix()
 			fix.Warnf(SilentAutofixFormat)
 			fix.Replace(oldSha1, newSha1)
